@@ -32,13 +32,16 @@ impl PanicInfo {
 pub fn rel_location(loc: &str) -> String {
     // "/repo/src/internal/expr.rs:416:35" -> "src/internal/expr.rs:416"
     let mut s = loc.to_string();
-    if let Some(p) = s.find("/repo/") {
-        s = s[p + 6..].to_string();
-    } else if let Some(p) = s.find("/registry/src/") {
+    if let Some(p) = s.find("/registry/src/") {
         let rest = &s[p + 14..];
         if let Some(q) = rest.find('/') {
             s = rest[q + 1..].to_string();
         }
+    } else if let Some(p) = s.find("/ffi/src/") {
+        // repository sources, wherever the (scratch copy of the) repository lives
+        s = s[p + 1..].to_string();
+    } else if let Some(p) = s.rfind("/src/") {
+        s = s[p + 1..].to_string();
     }
     let parts: Vec<&str> = s.split(':').collect();
     if parts.len() >= 2 {
